@@ -105,6 +105,7 @@ fn main() {
         "C01" => dispatch(&props::c01::C01, &mode, &opts),
         "C02" => dispatch(&props::c02::C02, &mode, &opts),
         "C06" => dispatch(&props::c06::C06, &mode, &opts),
+        "C10" => dispatch(&props::c10::C10, &mode, &opts),
         "C11" => dispatch(&props::c11::C11, &mode, &opts),
         "C15" => dispatch(&props::c15::C15, &mode, &opts),
         "C16" => dispatch(&props::c16::C16, &mode, &opts),
